@@ -2,6 +2,7 @@
 // usage: verif-native <oracle> [args...]   prints `VERIF-RESULT {json}` lines.
 include!("/verif/native/gsd_oracles.rs");
 include!("/verif/native/phy_oracles.rs");
+include!("/verif/native/bus_sim.rs");
 fn main() {
     let args: Vec<String> = std::env::args().collect();
     if args.len() < 2 {
@@ -11,19 +12,35 @@ fn main() {
     let seed: u64 = std::env::var("VERIF_SEED").ok().and_then(|s| s.parse().ok()).unwrap_or(0);
     let rest: Vec<String> = args[2..].to_vec();
     let out: Vec<String> = match args[1].as_str() {
+        #[cfg(rahix_profirust_verif)]
         "c11_accept" => profirust::fdl::__verif_native_active::c11_accept(&rest, seed),
+        #[cfg(rahix_profirust_verif)]
         "c15_sched" => profirust::fdl::__verif_native_active::c15_sched(&rest, seed),
+        #[cfg(rahix_profirust_verif)]
         "c01_timing" => profirust::fdl::__verif_native_active::c01_timing(&rest, seed),
+        #[cfg(rahix_profirust_verif)]
         "c12_gap" => profirust::fdl::__verif_native_active::c12_gap(&rest, seed),
+        #[cfg(rahix_profirust_verif)]
         "c10_decode" => profirust::fdl::__verif_native_telegram::c10_decode(&rest, seed),
+        #[cfg(rahix_profirust_verif)]
         "c10_first_byte" => profirust::fdl::__verif_native_telegram::c10_first_byte(&rest, seed),
+        #[cfg(rahix_profirust_verif)]
         "c09_roundtrip" => profirust::fdl::__verif_native_telegram::c09_roundtrip(&rest, seed),
+        #[cfg(rahix_profirust_verif)]
         "prims_bits" => profirust::fdl::__verif_native_token_ring::prims_bits(&rest, seed),
+        #[cfg(rahix_profirust_verif)]
         "c02_las" => profirust::fdl::__verif_native_token_ring::c02_las(&rest, seed),
+        #[cfg(rahix_profirust_verif)]
         "c03_wd" => profirust::fdl::__verif_native_parameters::c03_wd(&rest, seed),
+        #[cfg(rahix_profirust_verif)]
         "c08_user_diag" => profirust::dp::__verif_native_peripheral::c08_user_diag(&rest, seed),
+        #[cfg(rahix_profirust_verif)]
         "c07_recover" => profirust::dp::__verif_native_peripheral::c07_recover(&rest, seed),
+        #[cfg(rahix_profirust_verif)]
         "c17_iter" => profirust::dp::__verif_native_diagnostics::c17_iter(&rest, seed),
+        "bus_sim_c05" => bus_sim::bus_sim_c05(&rest, seed),
+        "bus_sim_c13" => bus_sim::bus_sim_c13(&rest, seed),
+        "bus_sim_c01" => bus_sim::bus_sim_c01(&rest, seed),
         "c16_chunks" => phy_oracles::c16_chunks(&rest, seed),
         "c20_write" => gsd_oracles::c20_write(&rest, seed),
         "c20_builder" => gsd_oracles::c20_builder(&rest, seed),
